@@ -87,6 +87,7 @@ MAT_OPS = ['m_dump', 'm_iter', 'm_indexed', 'm_to_map', 'm_min', 'm_max', 'm_phy
 
 class Check(PropCheck):
     pid = 'C20'
+    pure_predicate = True
     tol = 1e-9
     release_too = True
     timeout = 15          # every shard finishes in a second or two; anything longer is a hang
